@@ -13,6 +13,8 @@ Universe (plain JSON, also the corpus format):
                                             |{"k":"adjacent","tag":s,"content":s},
           "rename_all":R|None,"deny":bool,"variants":[variant...]}
   field   = {"name":ident,"ty":ty,"rename":s|None,"default":bool,"skip_none":bool,
+             "skip_if": "vec_empty"|"map_empty"|"str_empty"|"is_zero"|"not" (optional; with "default": true):
+                        #[serde(default, skip_serializing_if = "Vec::is_empty" | ..."String::is_empty" | is_zero_<int> | Not::not)]
              "default_val": JSON value (optional): #[serde(default = "fn")] with fn returning that NON-intrinsic value}
   variant = {"name":Ident,"rename":s|None,"kind":"unit"|"newtype"|"tuple"|"struct",
              "tys":[ty...] (newtype: 1, tuple: >=2), "fields":[field...], "rename_all":R|None}
@@ -194,6 +196,9 @@ class Gen:
                 f["rename"] = r.choice(FIELD_RENAMES)
             if defaultable(f["ty"]) and self.on("field-default", 0.25):
                 f["default"] = True
+            if not f["default"] and skip_pred_of(f["ty"]) and self.on("skip-if", 0.12):
+                f["default"] = True
+                f["skip_if"] = skip_pred_of(f["ty"])
             if not f["default"] and self.on("field-default-fn", 0.22):
                 dv = nondefault_value(f["ty"], r)
                 if dv is not None:
@@ -314,6 +319,42 @@ class Gen:
                                                    "tys": [T("string")], "fields": [], "rename_all": None})
         d["variants"] = out
 
+    def shared_field_family(self, d, vnames, tagging):
+        """tagged enum whose struct variants SHARE member names (one shared member, two, or partially), next to unit
+        variants; the shared member is required, `default`, `default + skip_serializing_if` (is_zero / is_empty / not)
+        or an Option with skip: typify's recognisers of adjacent / internal tagging (enums.rs) look at exactly these
+        counts of properties and required properties."""
+        r = self.r
+        names = list(vnames) + [x for x in VARIANT_NAMES if x not in vnames]
+
+        def member(nm):
+            ty = r.choice([T("int", n=r.choice(["u32", "u8", "i64"])), T("vec", t=T("int", n="u8")), T("string"), T("bool"),
+                           T("hashmap", t=T("string")), T("option", t=T("int", n="u16"))])
+            f = {"name": nm, "ty": ty, "rename": None, "default": False, "skip_none": False}
+            how = r.choice(["required", "default", "skip", "skip"])
+            if ty["k"] == "option":
+                f["skip_none"] = how == "skip"
+                f["default"] = how == "default"
+            elif how == "default":
+                f["default"] = True
+            elif how == "skip":
+                f["default"] = True
+                f["skip_if"] = skip_pred_of(ty)
+            return f
+        mode = r.choice(["one", "one", "two", "partial"])
+        shared = [member("count")] + ([member("items")] if mode == "two" else [])
+        out = []
+        for i in range(r.randint(0, 2)):
+            out.append({"name": names[i], "rename": None, "kind": "unit", "tys": [], "fields": [], "rename_all": None})
+        k0 = len(out)
+        for i in range(r.randint(1, 3)):
+            fs = [dict(f) for f in shared]
+            if mode == "partial" and r.random() < 0.6:
+                fs.append(member("extra%d" % i))
+            out.append({"name": names[k0 + i], "rename": None, "kind": "struct", "tys": [], "fields": fs, "rename_all": None})
+        r.shuffle(out)
+        d["variants"] = out
+
     def option_family(self, d, vnames):
         """untagged enum with ONE newtype variant over Option<T> (schemars: `type: [T, "null"]`, the only variant JSON
         null belongs to) next to variants of other JSON kinds, in random declaration order: typify must see
@@ -407,6 +448,8 @@ class Gen:
                 v["rename"] = r.choice(VARIANT_RENAMES)
             d["variants"].append(v)
         fam = r.random()
+        if tagging["k"] in ("internal", "adjacent", "external") and fam < 0.3:
+            self.shared_field_family(d, vnames, tagging)
         if tagging["k"] == "untagged" and fam < 0.35:
             self.length_family(d, vnames, avail, byname)
         elif tagging["k"] == "untagged" and fam < 0.6:
@@ -629,6 +672,15 @@ def untagged_distinguishable(d, byname):
 RANDOM_PROFILE = {"exclude": ("untagged-overlap", "null-payload")}
 
 
+def skip_pred_of(t):
+    """the skip_serializing_if predicate usable on a (non-Option) member type, or None"""
+    return {"vec": "vec_empty", "hashmap": "map_empty", "btreemap": "map_empty", "string": "str_empty",
+            "int": "is_zero", "bool": "not"}.get(t["k"])
+
+
+MODELLED_SKIPS = ("vec_empty", "map_empty")     # IR/Serde.v's POptional skips empty Vec / map (and None)
+
+
 def nondefault_value(t, rng):
     """a value of type t (serde JSON form) that differs from Default::default(), or None when unsupported."""
     k = t["k"]
@@ -835,6 +887,11 @@ def rs_fields(fields, indent, pub, prefix=""):
             at.append("default")
         if f.get("skip_none"):
             at.append('skip_serializing_if = "Option::is_none"')
+        if f.get("skip_if"):
+            pred = {"vec_empty": "Vec::is_empty", "str_empty": "String::is_empty", "not": "::std::ops::Not::not",
+                    "map_empty": "::std::collections::%s::is_empty" % ("HashMap" if f["ty"]["k"] == "hashmap" else "BTreeMap"),
+                    "is_zero": "is_zero_%s" % f["ty"].get("n", "u8")}[f["skip_if"]]
+            at.append('skip_serializing_if = "%s"' % pred)
         if at:
             out.append("%s#[serde(%s)]\n" % (indent, ", ".join(at)))
         out.append("%s%s%s: %s,\n" % (indent, "pub " if pub else "", f["name"], rs_ty(f["ty"])))
@@ -897,8 +954,15 @@ def rs_def(d):
     return "".join(out)
 
 
+IS_ZERO_FNS = "".join("fn is_zero_%s(v: &%s) -> bool { *v == 0 }\n" % (n, n) for n in INTS)
+
+
+def uses_is_zero(u):
+    return "is_zero" in json.dumps(u)
+
+
 def rs_universe(u):
-    return "\n".join(rs_def(d) for d in u["types"])
+    return "\n".join(rs_def(d) for d in u["types"]) + (IS_ZERO_FNS if uses_is_zero(u) else "")
 
 
 # --------------------------------------------------------------------------
@@ -957,6 +1021,10 @@ class Sampler:
         for f in fields:
             optional = f["default"] or cdefault or f["ty"]["k"] == "option" or "default_val" in f
             if optional and r.random() < 0.35:
+                continue
+            if f.get("skip_if") and r.random() < 0.45:
+                ev = empty_value(f["ty"])
+                o[field_wire(f, rule)] = ev[0] if ev is not None else self.ty(f["ty"], depth)
                 continue
             if "default_val" in f and r.random() < 0.5:
                 ev = empty_value(f["ty"])
@@ -1032,12 +1100,16 @@ class Sampler:
                     groups.append((vi, v, v["fields"], v["rename_all"]))
         for vi, v, fields, rule in groups:
             for f in fields:
-                if "default_val" not in f:
+                if "default_val" not in f and not f.get("skip_if"):
                     continue
-                vals = [f["default_val"]]
+                if "default_val" in f:
+                    vals = [f["default_val"]]
+                else:       # away from the skip point
+                    nv = nondefault_value(f["ty"], self.r)
+                    vals = [nv] if nv is not None else []
                 ev = empty_value(f["ty"])
                 if ev is not None:
-                    vals.insert(0, ev[0])
+                    vals.insert(0, ev[0])       # AT the skip point / the intrinsic-empty value
                 for val in vals:
                     try:
                         j = self.named(name, depth, variant=vi)
@@ -1203,6 +1275,8 @@ def features(u):
                 fs.add("field-default:" + f["ty"]["k"])
             if f.get("skip_none"):
                 fs.add("skip-none")
+            if f.get("skip_if"):
+                fs.add("skip-if:" + f["skip_if"])
             if "default_val" in f:
                 fs.add("field-default-fn")
                 fs.add("field-default-fn:" + strip_box(f["ty"])["k"])
@@ -1298,7 +1372,8 @@ def cq_field(f):
     import tocoq
     dv = "(Some %s)" % tocoq.cjson(f["default_val"]) if "default_val" in f else "None"
     return "(mkRField %s %s %s %s %s %s)" % (ustr(f["name"]), cq_ty(f["ty"]), cq_opt(f.get("rename")),
-                                              cq_bool(f.get("default")), cq_bool(f.get("skip_none")), dv)
+                                              cq_bool(f.get("default")),
+                                              cq_bool(f.get("skip_none") or f.get("skip_if") in MODELLED_SKIPS), dv)
 
 
 def cq_def(d):
